@@ -592,7 +592,9 @@ class _Cue:
                         ft = "%s & (*%s | string)" % (ft, self.lit(jv_to_py(f["def"])))
                     else:
                         ft = "%s | *%s" % (base, self.lit(jv_to_py(f["def"])))
-                lines.append("%s%s: %s" % (f["n"], "" if f["req"] else "?", ft))
+                # names that are not plain identifiers (or would be hidden `_x` / definition `#x` fields) are quoted
+                fname = f["n"] if re.fullmatch(r"[A-Za-z][A-Za-z0-9_]*", f["n"]) else json.dumps(f["n"], ensure_ascii=False)
+                lines.append("%s%s: %s" % (fname, "" if f["req"] else "?", ft))
             return "{\n" + "\n".join("\t" + ln.replace("\n", "\n\t") for ln in lines) + "\n}"
         if k in CUE_EXT:
             return CUE_EXT[k](self, t)
